@@ -151,7 +151,12 @@ def props_status(files):
             out.append({"file": f, "theorem": "(file missing)", "assumptions": "", "ok": False})
             continue
         src = open(path).read()
-        theorems = re.findall(r'^\s*(?:Theorem|Lemma|Corollary)\s+([A-Za-z0-9_\']+)', src, re.M)
+        # obligations: every Theorem/Corollary, plus any Lemma that is given a Print Assumptions
+        theorems = re.findall(r'^\s*(?:Theorem|Corollary)\s+([A-Za-z0-9_\']+)', src, re.M)
+        printed = re.findall(r'Print Assumptions\s+([A-Za-z0-9_\']+)', src)
+        for n in re.findall(r'^\s*Lemma\s+([A-Za-z0-9_\']+)', src, re.M):
+            if n in printed and n not in theorems:
+                theorems.append(n)
         rc, log = sh("timeout 900 coqc -R %s JQ %s 2>&1" % (os.path.join(COQ, "theories"), path), cwd=COQ)
         if rc != 0:
             for t in theorems or ["(none)"]:
